@@ -2365,6 +2365,16 @@ def transport_conditional_counterfactual_query(
     outcomes = minimize_event(event=outcomes, graph=target_domain_graph)  # type:ignore[assignment]
     conditions = minimize_event(event=conditions, graph=target_domain_graph)  # type:ignore[assignment]
 
+    # an outcome that is also conditioned on, at another value, makes the event impossible
+    condition_values: defaultdict[Variable, set[Intervention]] = defaultdict(set)
+    for variable, value in conditions:
+        condition_values[variable].add(value)
+    if any(
+        variable in condition_values and condition_values[variable] != {value}
+        for variable, value in outcomes
+    ):
+        return ConditionalCFTResult(expression=Zero(), event=None)
+
     # Initialize data structures
     (
         conditioned_variables,
